@@ -5,6 +5,10 @@
   pins    : layouts whose VALUE expressions the property's model reproduces (P_file__fn.v: pinned source text);
   enums   : Rust enums `file::Enum` whose discriminants / TryFromPrimitive domains / From tables the model uses (E_*.v).
 
+  ctl     : Rust CONTROL functions `file::[Type::]fn` whose normal form (state-machine arms, dispatch table, header decision
+            tree; C_file__[Type_]fn.v: generated normal form = the one the model is anchored on, Gen/CtlMap.v); a key
+            `file::fn@Sfx` names the anchors of Gen/CtlMap<Sfx>.v (proof-level relations of one property).
+
 `check` builds exactly these before the property's proofs; one that fails is a broken tie for this property
 (VIOLATION .. no-failing-input-found naming the lemma and the Rust layout, unless the oracle finds an input)."""
 
@@ -50,6 +54,15 @@ NTLM = ["ntlm::version", "ntlm::negotiate_message", "ntlm::challenge_message", "
 NTLM_ENUMS = ["ntlm::Negotiate", "ntlm::AvId"]
 
 
+# control code: the activation state machine of global::Client, its dispatch tables, the two header parsers below it
+STATE_CTL = ["global::Client::read", "global::Client::read_data_pdu", "global::Client::write_input_event"]
+GLOBAL_DISPATCH = ["global::PDU::from_control", "global::DataPDU::from_pdu", "global::FastPathUpdate::from_fp"]
+FRAMING_CTL = ["tpkt::Client::read"]
+SESSION_CTL = STATE_CTL + GLOBAL_DISPATCH + ["mcs::Client::read"] + FRAMING_CTL + ["client::KeyboardLayout::from"]
+CONNECT_CTL = FRAMING_CTL + ["x224::Client::read_connection_confirm", "mcs::Client::read", "license::parse_payload",
+                             "license::client_connect"]
+
+
 def u(*ls):
     out = []
     for l in ls:
@@ -59,8 +72,8 @@ def u(*ls):
     return out
 
 
-def T(layouts=(), pins=(), enums=()):
-    return {"layouts": list(layouts), "pins": list(pins), "enums": list(enums)}
+def T(layouts=(), pins=(), enums=(), ctl=()):
+    return {"layouts": list(layouts), "pins": list(pins), "enums": list(enums), "ctl": list(ctl)}
 
 
 SESSION = u(FRAMING, GLOBAL_READ, FASTPATH, GLOBAL_WRITE)
@@ -70,26 +83,33 @@ TIES = {
     "C01": T(NTLM, NTLM, NTLM_ENUMS),
     # negotiated security honoured: x224 negotiation and the connection sequence behind it
     "C02": T(u(CONNECT_READ, ["x224::x224_connection_pdu"]), ["x224::x224_connection_pdu", "x224::rdp_neg_req"],
-             ["x224::NegotiationType", "x224::Protocols", "x224::MessageType"]),
+             ["x224::NegotiationType", "x224::Protocols", "x224::MessageType"],
+             ctl=FRAMING_CTL + ["x224::Client::read_connection_confirm"]),
     # every emitted PDU well formed: all layouts the client writes, with their value expressions
     # (network level authentication: the NTLM messages the client writes / reads, LayoutsNtlmAuth.v)
     "C04": T(u(FRAMING, CONNECT_WRITE, GLOBAL_WRITE, NTLM[:5]), u(CONNECT_WRITE, GLOBAL_WRITE, ["tpkt::tpkt_header"], NTLM[:5]),
              u(CONNECT_ENUMS, GLOBAL_ENUMS, ["sec::InfoFlag", "global::PointerFlag"], NTLM_ENUMS)),
     # hostile bytes during connect
-    "C05": T(CONNECT_READ, [], CONNECT_ENUMS),
+    "C05": T(CONNECT_READ, [], CONNECT_ENUMS,
+             ctl=CONNECT_CTL),
     # hostile bytes during the session
-    "C06": T(SESSION, GLOBAL_WRITE, GLOBAL_ENUMS),
+    "C06": T(SESSION, GLOBAL_WRITE, GLOBAL_ENUMS,
+             ctl=SESSION_CTL),
     # hostile bytes during NLA
     "C07": T(NTLM, [], NTLM_ENUMS),
     # bitmap rectangles exactly once
-    "C10": T(u(FRAMING, SHARE, FASTPATH), [], ["global::FastPathUpdateType", "global::PDUType", "global::PDUType2"]),
+    "C10": T(u(FRAMING, SHARE, FASTPATH), [], ["global::FastPathUpdateType", "global::PDUType", "global::PDUType2"],
+             ctl=SESSION_CTL),
     # input events
     "C11": T(u(FRAMING, SHARE, INPUT), u(SHARE, INPUT),
-             ["global::InputEventType", "global::PointerFlag", "global::PDUType", "global::PDUType2"]),
+             ["global::InputEventType", "global::PointerFlag", "global::PDUType", "global::PDUType2"],
+             ctl=SESSION_CTL),
     # activation state machine
-    "C12": T(SESSION, GLOBAL_WRITE, GLOBAL_ENUMS),
+    "C12": T(SESSION, GLOBAL_WRITE, GLOBAL_ENUMS,
+             ctl=SESSION_CTL + ["global::Client::read@C12"]),
     # framing
-    "C13": T(FRAMING, ["tpkt::tpkt_header"], []),
+    "C13": T(FRAMING, ["tpkt::tpkt_header"], [],
+             ctl=FRAMING_CTL),
     "C14": T(FRAMING, ["tpkt::tpkt_header"], []),
     # AUTHENTICATE accepted by a reference server
     "C15": T(NTLM, NTLM, NTLM_ENUMS),
@@ -102,7 +122,8 @@ TIES = {
              u(["gcc::Version", "gcc::MessageType"], GLOBAL_ENUMS)),
     # whole connection: everything read and written from the negotiation to the finalization
     "C03": T(u(CONNECT_READ, CONNECT_WRITE, GLOBAL_READ, GLOBAL_WRITE, FRAMING), u(CONNECT_WRITE, GLOBAL_WRITE, ["tpkt::tpkt_header"]),
-             u(CONNECT_ENUMS, GLOBAL_ENUMS, ["sec::InfoFlag"])),
+             u(CONNECT_ENUMS, GLOBAL_ENUMS, ["sec::InfoFlag"]),
+             ctl=u(CONNECT_CTL, SESSION_CTL)),
     # secrets: the connection request, the NTLM messages, the client info and everything else the connect sequence writes
     "C17": T(u(CONNECT_READ, CONNECT_WRITE, NTLM), u(["x224::rdp_neg_req", "x224::x224_connection_pdu", "sec::rdp_infos"], NTLM),
              u(["x224::NegotiationType", "x224::Protocols", "sec::InfoFlag", "sec::SecurityFlag"], NTLM_ENUMS)),
@@ -112,3 +133,7 @@ TIES = {
 def of(pid):
     t = TIES.get(pid, T())
     return t["layouts"], t["pins"], t["enums"]
+
+
+def ctl_of(pid):
+    return TIES.get(pid, T())["ctl"]
